@@ -206,8 +206,8 @@ pub const REGIONS: [Region; 9] = [
 pub fn eco_http_scenario(t: &mut Tape, ip: IpAddr, max_retries: u64) -> Scenario {
     let explicit_port = if t.draw(CFG, 2) == 0 { None } else { Some(1024 + t.draw(CFG, 60_000) as u16) };
     let timeout = gen::timeouts(t, max_retries);
-    let level = t.draw(CFG, 3) as u8;
-    let entry = if t.draw(CFG, 3) == 0 { Entry::Generic { game_id: "eco", extra: None, level } } else { Entry::Eco { level } };
+    let level = t.draw(CFG, 4) as u8;
+    let entry = if t.draw(CFG, 3) == 0 { Entry::Generic { game_id: "eco", extra: None, level: level.min(2) } } else { Entry::Eco { level } };
     let call = Call { entry, ip, port: explicit_port, default_port: 3001, timeout: if level == 0 { None } else { timeout } };
     let addr = call.sockaddr();
     Scenario { call, placements: vec![Placement { addr, proto: Proto::Tcp, fam: Fam::EcoHttp }], http: false }
